@@ -20,6 +20,9 @@ COMMON_NOTE = ("Trusted: the harness's dense long-double reference, the choice-s
                "Exploration only: the property is shown to hold on the generated cases (counts in the evidence file), nothing is proved.")
 
 INFO = {
+    "C07": dict(level="exploration", assumptions=COMMON_ASSUME + ["bit-for-bit comparison only between runs of the same code on the same input with the bundled (plain C) BLAS"], note=COMMON_NOTE,
+                technique="property-based testing (rapidcheck), differential: the same factorization under several fill estimates / library allocation / caller workspaces of different length and alignment must give bit-identical permutations and factors",
+                text="Each generated problem is factored 3..8 times with different ways of obtaining factor storage; digests of everything returned are compared bit for bit, memory usage and expansion counts against the ledger."),
     "C20": dict(level="exploration", assumptions=COMMON_ASSUME + ["the bridge is plain C and is called from C with by-reference arguments exactly as a Fortran caller would; no Fortran compiler exists in the sandbox"], note=COMMON_NOTE,
                 technique="stateful property-based testing (rapidcheck): generated factor/solve/free histories over three handles, differential (bit-for-bit) against the C simple driver plus the C01 residual oracle and ledger balance",
                 text="Whole request histories are generated and shrunk as one value; after every request the invariants of the bridge are checked against the C driver run on the same matrix."),
@@ -66,7 +69,7 @@ INFO = {
 
 NOT_APPLICABLE = {}
 
-PROPS = ["C01", "C02", "C03", "C04", "C05", "C10", "C11", "C12", "C13", "C14", "C16", "C17", "C18", "C20"]
+PROPS = ["C01", "C02", "C03", "C04", "C05", "C07", "C10", "C11", "C12", "C13", "C14", "C16", "C17", "C18", "C20"]
 
 
 def all_props():
